@@ -118,6 +118,17 @@ struct Scenario {
 					if (w.data != audio) { bad("extracted-wav-data", key, name); ok = false; return; }
 				}
 				if (c.GetIndex(ref::equalFold(name, "x") ? name : std::string(name)) != i) { bad("lookup", key, name); ok = false; return; }
+				{
+					// by-name variants (base-class overloads), under another letter case
+					std::string other = name; for (auto& ch : other) ch = char((ch >= 'a' && ch <= 'z') ? ch - 32 : (ch >= 'A' && ch <= 'Z') ? ch + 32 : ch);
+					auto sn = static_cast<Archive::ArchiveFile&>(c).OpenStream(other);
+					std::vector<uint8_t> gn(std::size_t(sn->Length()));
+					if (!gn.empty()) sn->Read(gn.data(), gn.size());
+					if (gn != audio) { bad("stream-by-name-bytes", key, name); ok = false; return; }
+					static_cast<Archive::ArchiveFile&>(c).ExtractFile(other, "xn_" + name + ".wav");
+					auto wn = ref::parseCanonicalWav(mc::readFile("xn_" + name + ".wav"));
+					if (!wn.ok || !(wn.fmt == fmt) || wn.data != audio) { bad("extract-by-name", key, name + (wn.ok ? "" : ": " + wn.why)); ok = false; return; }
+				}
 				ctx.transition(6);
 			}
 		});
